@@ -1,8 +1,10 @@
 // ---- model of std::collections::{BTreeMap, BTreeSet} (trusted; written from the std documentation) ----
-#[verifier::external_body] #[verifier::accept_recursive_types(K)] #[verifier::accept_recursive_types(V)]
-pub struct BTreeMap<K, V> { _k: std::marker::PhantomData<K>, _v: std::marker::PhantomData<V> }
+// The model struct is transparent and holds its abstract map as a ghost field, so that values stored in the map are
+// structurally smaller than the map (recursion through map-valued fields of AST types is accepted by Verus).
+#[verifier::accept_recursive_types(K)] #[verifier::accept_recursive_types(V)]
+pub struct BTreeMap<K, V> { pub m: Ghost<Map<K, V>> }
 impl<K, V> BTreeMap<K, V> {
-    pub uninterp spec fn view(&self) -> Map<K, V>;
+    pub open spec fn view(&self) -> Map<K, V> { self.m@ }
     /// the keys in ascending order of K's Ord (uninterpreted: proofs do not depend on the order)
     pub uninterp spec fn key_order(&self) -> Seq<K>;
     pub open spec fn order_ok(&self) -> bool {
